@@ -32,6 +32,7 @@ type brokerCfg struct {
 	Buffer   int    `json:"buffer_size"`
 	Cap      int    `json:"capacity,omitempty"`
 	Delay    string `json:"dispatch_delay"`
+	Direct   bool   `json:"built_by_library_constructor,omitempty"` // NewBroker / NewQueueBroker / NewDequeBroker / NewLIFOBroker, no counting wrapper
 }
 
 func (c brokerCfg) lossless() bool {
@@ -75,12 +76,45 @@ func drawBrokerCfg(rng *rand.Rand, idx int64) brokerCfg {
 	c.Buffer = []int{0, 0, 0, 1, 8}[rng.IntN(5)]
 	c.Cap = 1 + rng.IntN(6)
 	c.Delay = []string{"none", "none", "yield", "spin"}[rng.IntN(4)]
+	if rng.IntN(3) == 0 {
+		c.Direct, c.Delay = true, "none"
+	}
 	return c
 }
 
 func newBrokerHarness(cfg brokerCfg) *brokerHarness {
 	h := &brokerHarness{cfg: cfg}
 	h.ctx, h.cancel = context.WithCancel(context.Background())
+	if cfg.Direct {
+		// the library's own constructors (and whatever distributor they pick)
+		opts := pubsub.BrokerOptions{BufferSize: cfg.Buffer, ParallelDispatch: cfg.Parallel, WorkerPoolSize: cfg.Workers}
+		h.depth = func() int { return 0 }
+		switch cfg.Backend {
+		case "channel":
+			h.b = pubsub.NewBroker[uint32](h.ctx, opts)
+		case "queue-unlimited":
+			q := pubsub.NewUnlimitedQueue[uint32]()
+			h.b, h.depth = pubsub.NewQueueBroker[uint32](h.ctx, q, opts), q.Len
+		case "queue-bounded":
+			q, err := pubsub.NewQueue[uint32](pubsub.QueueOptions{HardLimit: cfg.Cap, SoftQuota: cfg.Cap})
+			if err != nil {
+				panic(err)
+			}
+			h.b, h.depth = pubsub.NewQueueBroker[uint32](h.ctx, q, opts), q.Len
+		case "deque-unlimited":
+			d := pubsub.NewUnlimitedDeque[uint32]()
+			h.b, h.depth = pubsub.NewDequeBroker[uint32](h.ctx, d, opts), d.Len
+		case "deque-cap":
+			d, err := pubsub.NewDeque[uint32](pubsub.DequeOptions{Capacity: cfg.Cap})
+			if err != nil {
+				panic(err)
+			}
+			h.b, h.depth = pubsub.NewDequeBroker[uint32](h.ctx, d, opts), d.Len
+		default:
+			h.b = pubsub.NewLIFOBroker[uint32](h.ctx, opts, cfg.Cap)
+		}
+		return h
+	}
 	var inner pubsub.Distributor[uint32]
 	switch cfg.Backend {
 	case "channel":
